@@ -30,3 +30,16 @@ class Box:
 
     def get(self) -> int:
         return self.v + 1
+
+
+class Thing:
+    """Changes value AND shape between executions: on one statement a value assertion fails while another
+    one errors (the attribute is gone) in the same filtering re-execution."""
+
+    made = 0
+
+    def __init__(self) -> None:
+        Thing.made += 1
+        self.serial = Thing.made
+        if Thing.made % 2 == 1:
+            self.first = 1
